@@ -93,10 +93,19 @@ class ModeSelectUnit(_ListUnit):
             for k in keys:
                 out.append({"set": s, "how": list(how), "pages": [list(k)]})
             out.append({"set": s, "how": list(how), "pages": [list(keys[0]), list(keys[2])]})
+        # equally valid descriptions of a page_0 format page: the caller's dictionary also carries "sub_page_code": 0
+        # (or None); every page_0 page once alone, and one as the second page of a list
+        s, how = self.sets(tier)[0]
+        for k in keys:
+            if k[1] is None:
+                out.append({"set": s, "how": list(how), "pages": [list(k)], "extra_key": "sub_page_code=0"})
+        p0 = [k for k in keys if k[1] is None]
+        out.append({"set": s, "how": list(how), "pages": [list(keys[2]), list(p0[0])], "extra_key": "sub_page_code=0"})
+        out.append({"set": s, "how": list(how), "pages": [list(p0[-1])], "extra_key": "sub_page_code=None"})
         return out
 
     def case_id(self, case):
-        return "set=%s,pages=%s" % (case["set"], "+".join("%02X%s" % (p, "" if s is None else ".%02X" % s) for p, s in case["pages"]))
+        return "set=%s,pages=%s%s" % (case["set"], "+".join("%02X%s" % (p, "" if s is None else ".%02X" % s) for p, s in case["pages"]), "," + case["extra_key"] if case.get("extra_key") else "")
 
     def _fixed(self, key):
         p, s = key
@@ -128,6 +137,10 @@ class ModeSelectUnit(_ListUnit):
             D.put_be(cells, 0, 1, len(cells) - 1)
         self.expected = cells
         data = dict(hv, mode_pages=[dict(p) for p in pages])
+        if case.get("extra_key"):
+            for mp, (p, s) in zip(data["mode_pages"], case["pages"]):
+                if s is None:
+                    mp["sub_page_code"] = 0 if case["extra_key"].endswith("=0") else None
         self.caller_objects = [data] + data["mode_pages"]
         return X.call(self._cls(), self.opcode_obj(case), data, pf=a.pf, sp=a.sp)
 
